@@ -492,14 +492,18 @@ class VC:
             pass
         # 0b'. a short attempt on the incremental path solver (proofs only): many If-heavy goals are immediate for z3 while the
         #      case split below would first run into its deadline
-        if _has_ite(goal):
+        #      (adaptive: skipped once it has failed three times more often than it has succeeded in this configuration)
+        early = self.__dict__.setdefault("_early", [0, 0])
+        if _has_ite(goal) and early[1] - early[0] < 3:
             s = CTX.solver
             s.push()
             try:
-                s.set("timeout", 1500)
+                s.set("timeout", 600)
                 s.add(z3.Not(goal))
                 if s.check() == z3.unsat:
+                    early[0] += 1
                     return "discharged", "z3", None, None
+                early[1] += 1
             except z3.Z3Exception:
                 pass
             finally:
